@@ -4,7 +4,7 @@
 # checks against it (VERIF_REPO) with evidence / replays redirected (VERIF_OUT), so several mutants can run in parallel.
 set -u
 P=$(readlink -f "$1"); [ -d "$P" ] && P=$P/patch.diff; shift
-N=$(basename $(dirname $P)); [ "$N" = "seed" ] && N=$(basename $P .patch)
+N=$(basename $(dirname $P)); [ "$N" = "seed" ] && N=$(basename $P .patch); [ "$N" = "green" ] && N=$(basename $P .diff)
 WT=/tmp/seedwt/$N; OUT=/tmp/seedrun/$N
 rm -rf $WT $OUT; mkdir -p /tmp/seedwt $OUT/evidence $OUT/work/replays
 git -C /repo worktree add -q --detach $WT HEAD || exit 2
